@@ -29,6 +29,11 @@ def run(F, X, rep):
         H.l2_no_shared_blocking_state(C, rep, "C11-T7")
         # and the timer arm's answer needs the table lock: nothing may block while another task holds it
         H.p6_no_blocking_under_lock(C, rep, "C11-T8")
+    # "a set that never reaches the required total": what counts as reached is the exact predicate (C12-X1/X2)
+    import p_c12
+    for pb in p_c12.find_fee_predicate(F)[:1]:
+        p_c12.c12_x1(F, X, rep, pb)
+        p_c12.c12_x2(F, X, rep, pb)
     # T5: the configured value reaches params.mpp_timeout (and is not crossed with the payment timeout)
     import p_c19
     mb = p_c19.main_body(F)
